@@ -64,7 +64,19 @@ fn judge(v: Option<&[u8]>, st: &mut Stats, order: u64, prop: &str) {
     };
     st.evaluations += 1;
     let want = prefers_gzip(v);
-    let s0 = st.state(&("ae", want));
+    // state = which of gzip / identity / * carry which kind of quality, per the harness parser
+    let profile = v.map(|b| match crate::oracle::accept::parse(b) {
+        crate::oracle::accept::Parsed::List(l) => {
+            let q = |n: &str| l.iter().find(|(c, _)| c == n).map(|(_, q)| if *q == 0 { 0u8 } else if *q == 1000 { 2 } else { 1 });
+            let cmp = match (l.iter().find(|(c, _)| c == "gzip"), l.iter().find(|(c, _)| c == "identity")) {
+                (Some(g), Some(i)) => Some(g.1.cmp(&i.1)),
+                _ => None,
+            };
+            Some((q("gzip"), q("identity"), q("*"), cmp, l.len().min(4)))
+        }
+        _ => None,
+    });
+    let s0 = st.state(&("ae", want, profile));
     let s1 = st.state(&("ae-result", want, r.as_ref().ok().copied()));
     st.transition(s0, 0, s1);
     st.outcome(format!("oracle={want:?}/impl={:?}", r.as_ref().ok()));
